@@ -240,9 +240,9 @@ func TestC17(t *testing.T) {
 					return
 				}
 				// discriminating: another ecosystem rejects one of the strings or orders them differently
-				bv, _ := e.NewVersion(bound)
+				bv, err0 := e.NewVersion(bound)
 				pv, err := e.NewVersion(probe)
-				if err != nil {
+				if err != nil || err0 != nil {
 					return
 				}
 				mine := sign(pv.Compare(bv))
